@@ -128,13 +128,16 @@ impl Check for C02 {
         tier.pick(std::time::Duration::from_secs(200), std::time::Duration::from_secs(1500))
     }
     fn required_counters(&self, _tier: Tier) -> Vec<&'static str> {
-        vec!["restarts", "torn-variants", "every-prefix-cases", "must-serve-keys", "must-be-absent-keys", "full-store-restarts", "root-used-before-by-another-network-version"]
+        vec!["restarts", "torn-variants", "every-prefix-cases", "must-serve-keys", "must-be-absent-keys", "full-store-restarts", "root-used-before-by-another-network-version", "largest-record-restarts"]
     }
     fn run_case(&self, cx: &mut Cx) {
         // the store's capacity is a constant of the shipped build (not configurable at construction), so
         // "full at the moment of the restart" is exercised at its real size: cases 0 and 1 of every run
         if cx.index < 2 {
             return full_store_case(cx);
+        }
+        if cx.index == 2 {
+            return largest_record_case(cx);
         }
         let root = scratch_dir("c02");
         let live = root.join("live");
@@ -474,6 +477,57 @@ fn full_store_case(cx: &mut Cx) {
     }
     cx.nontrivial(&("full-store", n, max));
     cx.sample(w);
+    drop(sim);
+    let _ = std::fs::remove_dir_all(&root);
+}
+
+/// Records at and just below the largest value the store accepts from the network (the encrypted file is a
+/// little longer than the value): completed writes of them must be served again after a restart like any other.
+fn largest_record_case(cx: &mut Cx) {
+    let root = scratch_dir("c02big");
+    let live = root.join("live");
+    let mut sim = Sim::new(cx.rng.gen(), false);
+    sim.policy = Policy::Fifo;
+    sim.set_gates_controlled(false);
+    let kp = gen::ed_keypair(&mut cx.rng);
+    sim.add_node(kp.clone(), live.clone(), false);
+    let max = ant_networking::MAX_PACKET_SIZE;
+    let sizes = [max - 1, max - 2, max - 15, max - 16, max - 17, max - 33, max / 2];
+    let mut keys = vec![];
+    let mut values = vec![];
+    for (i, sz) in sizes.iter().enumerate() {
+        let kind = KINDS[i % KINDS.len()];
+        let mut v = value_with_id(&mut cx.rng, kind, 900 + i as u64, 32);
+        v.resize(*sz, 0xa5);
+        let key = RecordKey::from(gen::bytes(&mut cx.rng, 32));
+        {
+            let _g = sim.rt.enter();
+            let _ = sim.nodes[0].drv.verif_handle_local_cmd(LocalSwarmCmd::PutLocalRecord { record: Record { key: key.clone(), value: v.clone(), publisher: None, expires: None } });
+        }
+        keys.push(key);
+        values.push(v);
+    }
+    let mut d = || true;
+    if !sim.settle(&mut d) {
+        cx.inconclusive("large writes did not settle");
+        let _ = std::fs::remove_dir_all(&root);
+        return;
+    }
+    let held: usize = keys.iter().filter(|k| sim.get_local(0, k).is_some()).count();
+    sim.bury_background_tasks();
+    sim.crash_node(0);
+    let idx = sim.add_node(kp.clone(), live.clone(), false);
+    sim.yield_rounds(8);
+    cx.count("restarts");
+    cx.count("largest-record-restarts");
+    for (i, k) in keys.iter().enumerate() {
+        cx.eval();
+        let got = sim.get_local(idx, k);
+        if got.as_ref().map(|r| &r.value) != Some(&values[i]) {
+            cx.violation("completed-write-lost-after-restart:record-near-the-size-limit", format!("a completed write of {} bytes (value limit {max}) is {} after the restart ({held} of {} were readable before it)", sizes[i], if got.is_some() { "served with other bytes" } else { "not served" }, keys.len()), json!({"size": sizes[i], "limit": max}));
+        }
+    }
+    cx.nontrivial(&("largest-records", max));
     drop(sim);
     let _ = std::fs::remove_dir_all(&root);
 }
